@@ -185,6 +185,9 @@ func (u *PacketUnderlay) RunEventLoop(ctx context.Context) error {
 	for {
 		select {
 		case <-ctx.Done():
+			// Returning closes the socket. Close the sessions first, so that
+			// their close requests can still reach the peers.
+			u.Close()
 			u.cleanSessions()
 			return nil
 		case <-u.done:
